@@ -10,6 +10,7 @@ import (
 	"runtime"
 	"sort"
 	"strings"
+	"sync/atomic"
 	"time"
 
 	"github.com/mit-pdos/go-nfsd/fh"
@@ -48,6 +49,7 @@ type seqRun struct {
 	hist         map[string]int
 	opTimeout    time.Duration
 	cur          [][]byte        // handle-typed arguments of the operation being issued
+	chaseHot     bool            // concurrent runs: prefer the handle another client's finishing operation used
 	deadH        map[string]bool // handles of objects known to be removed or overwritten
 	issued       map[string]bool // every handle a creation ever returned
 	c09          bool            // compare full dumps around failing operations
@@ -894,8 +896,17 @@ func (s *seqRun) sortedKeys(m map[string]*objInfo) []string {
 
 // pickHandle: mostly a live handle of the wanted kind (0 = any), sometimes a
 // stale or malformed one.
+// hotHandle: in concurrent runs, the handle of an operation whose transaction has just ended while
+// its handler has not returned yet (see concObserver); the other clients aim at it.
+var hotHandle atomic.Value // []byte
+
 func (s *seqRun) pickHandle(kind uint32) []byte {
 	r := s.r
+	if s.chaseHot {
+		if h, _ := hotHandle.Load().([]byte); len(h) > 0 && r.Chance(1, 2) {
+			return append([]byte(nil), h...)
+		}
+	}
 	k := r.Intn(100)
 	if k < 6 && len(s.stale) > 0 {
 		return s.stale[r.Intn(len(s.stale))]
